@@ -314,6 +314,9 @@ Proof. intros k. apply N.neq_0_lt_0, N.pow_nonzero. lia. Qed.
 Lemma pow26_pos : forall k, 0 < 26 ^ k.
 Proof. intros k. apply N.neq_0_lt_0, N.pow_nonzero. lia. Qed.
 
+Lemma sat64_small : forall x, x <= U32MAX -> sat64 x = x.
+Proof. intros x H. unfold sat64, U64MAX. unfold U32MAX in H. apply N.min_l. lia. Qed.
+
 Lemma mk_state_eq : forall a b c d a' b' c' d',
   a = a' -> b = b' -> c = c' -> d = d' ->
   {| s_row := a; s_col := b; s_pow := c; s_readrow := d |} =
@@ -342,13 +345,10 @@ Proof.
     pose proof (pow10_pos (N.of_nat (length ds))) as Hpp.
     assert (Hd9 : d - ch_0 <= 9) by (unfold is_digit, ch_0, ch_9 in *; lia).
     unfold scan_char. rewrite Hd'. cbn [s_readrow s_pow s_row s_col].
-    unfold mul32, add32.
-    assert (E1 : ((d - ch_0) * pow <=? U32MAX) = true) by (apply N.leb_le; nia).
-    rewrite E1. cbn [obind].
-    assert (E2 : (row + (d - ch_0) * pow <=? U32MAX) = true) by (apply N.leb_le; nia).
-    rewrite E2. cbn [obind].
-    assert (E3 : (pow * 10 <=? U32MAX) = true) by (apply N.leb_le; nia).
-    rewrite E3. cbn [obind].
+    rewrite (@sat64_small ((d - ch_0) * pow)) by nia.
+    rewrite (@sat64_small (row + (d - ch_0) * pow)) by nia.
+    rewrite (@sat64_small (pow * 10)) by nia.
+    cbn [obind].
     rewrite IH; [| exact HF | nia | nia].
     f_equal. apply mk_state_eq; try reflexivity.
     + rewrite undec_app. lia.
@@ -382,13 +382,10 @@ Proof.
     unfold scan_char. rewrite (upper_not_digit _ Hd'), Hd'.
     unfold scan_letter. cbn [s_readrow s_pow s_row s_col obind].
     change (d - ch_A + 1) with (letter_val d).
-    unfold mul32, add32.
-    assert (E1 : (letter_val d * pow <=? U32MAX) = true) by (apply N.leb_le; nia).
-    rewrite E1. cbn [obind].
-    assert (E2 : (col + letter_val d * pow <=? U32MAX) = true) by (apply N.leb_le; nia).
-    rewrite E2. cbn [obind].
-    assert (E3 : (pow * 26 <=? U32MAX) = true) by (apply N.leb_le; nia).
-    rewrite E3. cbn [obind].
+    rewrite (@sat64_small (letter_val d * pow)) by nia.
+    rewrite (@sat64_small (col + letter_val d * pow)) by nia.
+    rewrite (@sat64_small (pow * 26)) by nia.
+    cbn [obind].
     rewrite IH; [| exact HF | nia | nia].
     f_equal. apply mk_state_eq; try reflexivity.
     + rewrite col1_app. lia.
@@ -431,7 +428,9 @@ Proof.
   replace (0 + undec ds * 1) with (undec ds) by lia.
   destruct ls as [|l0 ls0] using rev_ind.
   - cbn [rev scan_loop obind s_row s_col].
-    apply N.eqb_neq in Hrow. rewrite Hrow. reflexivity.
+    apply N.eqb_neq in Hrow. rewrite Hrow.
+    destruct (U32MAX <? undec ds - 1) eqn:ER; [apply N.ltb_lt in ER; unfold U32MAX in ER; lia|].
+    reflexivity.
   - clear IHls0. rewrite rev_app_distr. cbn [rev app scan_loop].
     apply Forall_app in HL as HL'. destruct HL' as [HL0 Hl0].
     inversion Hl0 as [|? ? Hl0' _]; subst.
@@ -449,6 +448,9 @@ Proof.
     cbn [scan_loop obind s_row s_col].
     apply N.eqb_neq in Hrow. rewrite Hrow.
     replace (0 + col1_of_letters (ls0 ++ [l0]) * 1) with (col1_of_letters (ls0 ++ [l0])) by lia.
+    destruct (U32MAX <? undec ds - 1) eqn:ER; [apply N.ltb_lt in ER; unfold U32MAX in ER; lia|].
+    destruct (negb (col1_of_letters (ls0 ++ [l0]) =? 0) && (U32MAX <? col1_of_letters (ls0 ++ [l0]) - 1)) eqn:EC.
+    { apply andb_prop in EC. destruct EC as [_ EC]. apply N.ltb_lt in EC. lia. }
     reflexivity.
 Qed.
 
@@ -538,46 +540,68 @@ Proof.
   - apply get_row_column_a1_name; [exact Hr|]. unfold COL_TEXT_LIMIT. lia.
 Qed.
 
-(* … and the bound is exact: from 10 digits on, the scanner overflows u32 (a Panic in the
-   overflow-checked build) whatever else the text contains *)
-Lemma scan_loop_panic : forall rest, (do s' <- @Panic scan_state; scan_loop rest s') = Panic.
-Proof. reflexivity. Qed.
-
-Lemma scan_ten_digits_panic : forall ds col rest,
-  Forall (fun x => is_digit x = true) ds -> (10 <= length ds)%nat ->
-  scan_loop (rev ds ++ rest) {| s_row := 0; s_col := col; s_pow := 1; s_readrow := true |} = Panic.
+(* since the C06 hardening the scanner accumulates in u64 with saturating arithmetic and converts
+   to u32 at the end: no input makes it panic (the former 10-digit overflow is gone) *)
+Lemma scan_char_total : forall c s, (exists r, scan_char c s = Ok r) \/ (exists e, scan_char c s = Err e).
 Proof.
-  intros ds col rest HD Hlen.
-  set (n := length ds) in *.
-  rewrite <- (firstn_skipn (n - 9) ds) in *.
-  set (lo := skipn (n - 9) ds) in *. set (hi := firstn (n - 9) ds) in *.
-  assert (Hlo : length lo = 9%nat) by (unfold lo; rewrite skipn_length; fold n; lia).
-  assert (Hhi : hi <> []).
-  { intros E. assert (length hi = (n - 9)%nat) by (unfold hi; rewrite firstn_length; fold n; lia).
-    rewrite E in H. cbn in H. lia. }
-  destruct (exists_last Hhi) as (hi' & d & Ehi). rewrite Ehi in *. clear Hhi Ehi.
-  apply Forall_app in HD. destruct HD as [HDhi HDlo].
-  apply Forall_app in HDhi. destruct HDhi as [_ Hd]. inversion Hd as [|? ? Hd' _]; subst.
-  rewrite !rev_app_distr. cbn [rev app]. rewrite <- !app_assoc.
-  pose proof (undec_lt HDlo) as Hund. rewrite Hlo in Hund.
-  change (10 ^ N.of_nat 9) with 1000000000 in Hund.
-  rewrite scan_digits; [| exact HDlo | rewrite Hlo; unfold U32MAX; change (10 ^ N.of_nat 9) with 1000000000; lia
-                        | unfold U32MAX; lia].
-  rewrite Hlo. change (1 * 10 ^ N.of_nat 9) with 1000000000.
-  cbn [app scan_loop]. unfold scan_char. rewrite Hd'. cbn [s_readrow s_pow s_row s_col].
-  unfold mul32, add32, U32MAX.
-  destruct ((d - ch_0) * 1000000000 <=? 4294967295); [|reflexivity]. cbn [obind].
-  destruct (0 + undec lo * 1 + (d - ch_0) * 1000000000 <=? 4294967295); [|reflexivity].
-  cbn [obind]. change (1000000000 * 10 <=? 4294967295) with false. reflexivity.
+  intros c s. unfold scan_char, scan_letter.
+  destruct (is_digit c); [destruct (s_readrow s); eauto|].
+  destruct (is_upper c).
+  { destruct (s_readrow s); [destruct (s_row s =? 0)|]; cbn [obind]; eauto. }
+  destruct (is_lower c); [|eauto].
+  destruct (s_readrow s); [destruct (s_row s =? 0)|]; cbn [obind]; eauto.
 Qed.
 
-Theorem get_row_column_row_text_overflow : forall r c, ROW_TEXT_LIMIT <= r + 1 ->
-  get_row_column (a1_name r c) = Panic.
+Lemma scan_loop_total : forall rs s, scan_loop rs s <> Panic /\ scan_loop rs s <> OutOfFuel.
 Proof.
-  intros r c Hr. unfold get_row_column, get_row_and_optional_column, a1_name, ROW_TEXT_LIMIT in *.
-  rewrite rev_app_distr. unfold scan_init. rewrite scan_ten_digits_panic; [reflexivity| |].
-  - apply dec_digits.
-  - apply (@dec_length_ge 9%nat). change (10 ^ N.of_nat 9) with 1000000000. lia.
+  induction rs as [|c rs IH]; intros s; [split; discriminate|].
+  cbn [scan_loop]. destruct (scan_char_total c s) as [[r E]|[e E]]; rewrite E; cbn [obind].
+  - apply IH.
+  - split; discriminate.
+Qed.
+
+Theorem get_row_and_optional_column_total : forall range,
+  get_row_and_optional_column range <> Panic /\ get_row_and_optional_column range <> OutOfFuel.
+Proof.
+  intros range. unfold get_row_and_optional_column.
+  destruct (scan_loop_total (rev range) scan_init) as [H1 H2].
+  destruct (scan_loop (rev range) scan_init) as [s|e| |]; cbn [obind]; try contradiction; try (split; discriminate).
+  destruct (s_row s =? 0); [split; discriminate|].
+  destruct (U32MAX <? s_row s - 1); [split; discriminate|].
+  destruct (negb (s_col s =? 0) && (U32MAX <? s_col s - 1)); split; discriminate.
+Qed.
+
+Theorem get_row_column_total : forall range,
+  get_row_column range <> Panic /\ get_row_column range <> OutOfFuel.
+Proof.
+  intros range. unfold get_row_column.
+  destruct (get_row_and_optional_column_total range) as [H1 H2].
+  destruct (get_row_and_optional_column range) as [[r [c|]]|e| |]; cbn [obind snd fst];
+    try contradiction; split; discriminate.
+Qed.
+
+Theorem get_row_total : forall range, get_row range <> Panic /\ get_row range <> OutOfFuel.
+Proof.
+  intros range. unfold get_row.
+  destruct (get_row_and_optional_column_total range) as [H1 H2].
+  destruct (get_row_and_optional_column range) as [rc|e| |]; cbn [obind];
+    try contradiction; split; discriminate.
+Qed.
+
+Lemma collect_parts_total : forall ps, collect_parts ps <> Panic /\ collect_parts ps <> OutOfFuel.
+Proof.
+  induction ps as [|p ps IH]; [split; discriminate|].
+  cbn [collect_parts]. destruct (get_row_column_total p) as [H1 H2].
+  destruct (get_row_column p) as [x|e| |]; cbn [obind]; try contradiction; try (split; discriminate).
+  destruct IH as [I1 I2]. destruct (collect_parts ps) as [xs|e| |]; cbn [obind]; try contradiction; split; discriminate.
+Qed.
+
+Theorem get_dimension_total : forall d, get_dimension d <> Panic /\ get_dimension d <> OutOfFuel.
+Proof.
+  intros d. unfold get_dimension.
+  destruct (collect_parts_total (split_on ch_colon d [])) as [H1 H2].
+  destruct (collect_parts (split_on ch_colon d [])) as [parts|e| |]; cbn [obind]; try contradiction; try (split; discriminate).
+  destruct parts as [|p0 [|p1 [|p2 t]]]; split; discriminate.
 Qed.
 
 (* ------------------------------------------------------------------ lower case = upper case *)
@@ -658,31 +682,28 @@ Proof.
   intros r0 c0 r1 c1 Hr Hc Hr1 Hc1. unfold get_dimension. cbn [app].
   rewrite split_on_sep by apply a1_name_no_colon.
   rewrite split_on_no_sep by apply a1_name_no_colon. cbn [rev app collect_parts].
-  rewrite !get_row_column_a1_name by lia. cbn [obind fst snd].
-  unfold sub32. apply N.leb_le in Hr as Hr', Hc as Hc'. rewrite Hr', Hc'. reflexivity.
+  rewrite !get_row_column_a1_name by lia. cbn [obind fst snd]. reflexivity.
 Qed.
 
-(* a reversed dimension ("B2:A1") makes the u32 subtraction underflow: Panic *)
-Theorem get_dimension_reversed_panics : forall r0 c0 r1 c1,
-  r1 < r0 \/ (r0 <= r1 /\ c1 < c0) -> r0 + 1 < ROW_TEXT_LIMIT -> r1 + 1 < ROW_TEXT_LIMIT ->
-  c0 < COL_TEXT_LIMIT -> c1 < COL_TEXT_LIMIT ->
-  get_dimension (a1_name r0 c0 ++ [ch_colon] ++ a1_name r1 c1) = Panic.
+(* a reversed dimension ("B2:A1") is returned as written (the code uses saturating_sub and only
+   logs; before the C06 hardening the u32 subtraction panicked) *)
+Theorem get_dimension_reversed_ok : forall r0 c0 r1 c1,
+  r0 + 1 < ROW_TEXT_LIMIT -> r1 + 1 < ROW_TEXT_LIMIT -> c0 < COL_TEXT_LIMIT -> c1 < COL_TEXT_LIMIT ->
+  get_dimension (a1_name r0 c0 ++ [ch_colon] ++ a1_name r1 c1) = Ok ((r0, c0), (r1, c1)).
 Proof.
-  intros r0 c0 r1 c1 H Hr0 Hr1 Hc0 Hc1. unfold get_dimension. cbn [app].
+  intros r0 c0 r1 c1 Hr0 Hr1 Hc0 Hc1. unfold get_dimension. cbn [app].
   rewrite split_on_sep by apply a1_name_no_colon.
   rewrite split_on_no_sep by apply a1_name_no_colon. cbn [rev app collect_parts].
-  rewrite !get_row_column_a1_name by lia. cbn [obind fst snd].
-  unfold sub32. destruct H as [H|[H1 H2]].
-  - destruct (r0 <=? r1) eqn:E; [apply N.leb_le in E; lia|]. reflexivity.
-  - apply N.leb_le in H1. rewrite H1. cbn [obind].
-    destruct (c0 <=? c1) eqn:E; [apply N.leb_le in E; lia|]. reflexivity.
+  rewrite !get_row_column_a1_name by lia. reflexivity.
 Qed.
 
 Example a1_examples :
   a1_name 0 0 = [65; 49] /\ a1_name 1048575 16383 = [88; 70; 68; 49; 48; 52; 56; 53; 55; 54] /\
   get_row_column [88; 70; 68; 49; 48; 52; 56; 53; 55; 54] = Ok (1048575, 16383) /\
   get_row_column [120; 102; 100; 49] = Ok (0, 16383) /\
-  get_row_column [65; 49; 48; 48; 48; 48; 48; 48; 48; 48; 48] = Panic /\
-  get_dimension [66; 50; 58; 65; 49] = Panic /\
+  get_row_column [65; 49; 48; 48; 48; 48; 48; 48; 48; 48; 48] = Ok (999999999, 0) /\       (* A1000000000 *)
+  get_row_column [65; 52; 50; 57; 52; 57; 54; 55; 50; 57; 54] = Ok (4294967295, 0) /\      (* A4294967296 *)
+  get_row_column [65; 52; 50; 57; 52; 57; 54; 55; 50; 57; 55] = Err E_RANGE /\             (* A4294967297 *)
+  get_dimension [66; 50; 58; 65; 49] = Ok ((1, 1), (0, 0)) /\
   a1_ref 4 27 true false = [36; 65; 66; 53].
 Proof. vm_compute. repeat split. Qed.
